@@ -3,17 +3,18 @@
 # For each: apply seeded/<name>/patch.diff to /repo, run the quick checks recorded for it (check_*.txt files),
 # expect a VIOLATION, undo.  Prints one line per change; evidence of these runs is not kept.
 set -u
+R=${VERIF_REPO:-/repo}
 here=$(cd "$(dirname "$0")/.." && pwd)
 cd "$here"
 names="$@"; [ -z "$names" ] && names=$(ls seeded)
-git -C /repo diff --quiet || { echo "/repo is dirty, refusing"; exit 2; }
-mkdir -p /root/work/evbak; cp evidence/*.json /root/work/evbak/
+git -C $R diff --quiet || { echo "/repo is dirty, refusing"; exit 2; }
+B=$(mktemp -d /root/work/evbak.XXXX); cp evidence/*.json $B/
 for n in $names; do
   d="$here/seeded/$n"
   [ -f "$d/patch.diff" ] || continue
-  if ! git -C /repo apply --check "$d/patch.diff" 2>/dev/null; then
-    if git -C /repo apply --3way "$d/patch.diff" >/dev/null 2>&1; then git -C /repo reset -q; how=3way; else echo "$n NOAPPLY"; git -C /repo reset -q --hard HEAD; continue; fi
-  else git -C /repo apply "$d/patch.diff"; how=ok; fi
+  if ! git -C $R apply --check "$d/patch.diff" 2>/dev/null; then
+    if git -C $R apply --3way "$d/patch.diff" >/dev/null 2>&1; then git -C $R reset -q; how=3way; else echo "$n NOAPPLY"; git -C $R reset -q --hard HEAD; continue; fi
+  else git -C $R apply "$d/patch.diff"; how=ok; fi
   res=""
   for c in "$d"/check_*.txt; do
     p=$(basename "$c" .txt | cut -d_ -f2)
@@ -23,7 +24,7 @@ for n in $names; do
     res="$res $p:rc=$rc,viol=$v,nofail=$nf"
   done
   echo "$n [$how]$res"
-  git -C /repo reset -q --hard HEAD
+  git -C $R reset -q --hard HEAD
 done
-cp /root/work/evbak/*.json evidence/
+cp $B/*.json evidence/; rm -rf $B
 /venv/bin/python harness/translate.py --all > /dev/null 2>&1
